@@ -148,6 +148,18 @@ def readFixed (pdu size : Nat) (s : Bytes) : Except RErr (Hdr × Bytes × Bytes)
       | .error e => .error e
       | .ok (b, rest) => .ok (h, b, rest)
 
+/-- `X::try_read`: as `read`, except that the header of an Error PDU is handed back (nothing after it is read) -/
+def tryReadFixed (pdu size : Nat) (s : Bytes) : Except RErr (Sum (Hdr × Bytes) Hdr × Bytes) :=
+  match readHdr s with
+  | .error e => .error e
+  | .ok (h, r) =>
+    if h.pdu = pduError then .ok (.inr h, r)
+    else if h.pdu ≠ pdu then .error .invalid
+    else if h.length ≠ size then .error .invalid
+    else match readExact (size - sizeHeader) r with
+      | .error e => .error e
+      | .ok (b, rest) => .ok (.inl (h, b), rest)
+
 /-- `Error::new` -/
 def encodeError (version code : Nat) (pdu text : Bytes) : Bytes :=
   encHdr ⟨version, pduError, code, sizeHeader + 8 + pdu.length + text.length⟩
